@@ -247,10 +247,10 @@ def check(run, prefix="O5"):
                 continue
             for (wb, _sp, rv) in [w for w in K.writes_of_field(b, "votor::Votor", "highest_final_cert_slot") if w[0] == bb]:
                 t = b.rvalue_term(rv)
-                ok = t[0] == "call" and t[1].endswith("::max") and any(K.mentions_field(a, "highest_final_cert_slot") for a in t[2])
+                ok = D.monotone_write(prog, b, bb, t, "highest_final_cert_slot")
                 if fn.endswith("Votor::new"):
                     ok = True
-                o.check(ok, "highest_final_cert_slot|monotone|%s" % fshort(fn), "highest_final_cert_slot = max(old, cert.slot())", sp, {"value": mir.show(t)})
+                o.check(ok, "highest_final_cert_slot|monotone|%s" % fshort(fn), "highest_final_cert_slot only ever increases (max(old, slot), or written under old < slot)", sp, {"value": mir.show(t)})
 
     # set_timeouts(slot) asserts a window start: every caller passes one
     for c, key in K.ordinal_keys(prog.callers_of(VOTOR + "Votor::set_timeouts"), lambda c: "%s|set_timeouts" % fshort(c.body.defpath)):
